@@ -2,7 +2,7 @@
 """apply each seeded change to /repo, run the property's check, undo; print a table.
 usage: seedtest.py <dir-with-Cxx/patchK.diff> [Cxx ...]"""
 import subprocess, sys, os, glob, json, re
-REPO = os.environ.get('VERIF_REPO', REPO)
+REPO = os.environ.get('VERIF_REPO', '/repo')
 VERIF = os.path.dirname(os.path.dirname(os.path.abspath(__file__)))
 root = sys.argv[1]
 only = set(sys.argv[2:])
